@@ -34,6 +34,8 @@ type scOp struct {
 	status int
 	body   []byte
 	chunk  bool
+	cond   bool // origin honours If-None-Match: 304 when it names the current ETag
+	cl0    bool // ... and that 304 carries Content-Length: 0 (legal, unusual)
 }
 
 var scReqHeaders = [][2]string{
@@ -68,6 +70,10 @@ func syscStream(g *hx.Gen, id int) hx.Case {
 		}
 		if g.Chance(50) {
 			o.hdr = append(o.hdr, [2]string{"ETag", "\"e" + hx.I(version) + "\""})
+			if st == 200 && g.Chance(60) {
+				o.cond = true
+				o.cl0 = g.Chance(40)
+			}
 		}
 		for i := g.Intn(3); i > 0; i-- {
 			o.hdr = append(o.hdr, scExtraHeaders[g.Intn(len(scExtraHeaders))])
@@ -107,6 +113,21 @@ func syscStream(g *hx.Gen, id int) hx.Case {
 			ops = append(ops, scOp{kind: 'T', dt: 1}, r)
 		}
 		ops = append(ops, mk(false), r, r)
+		return syscRun("sysc", id, force, ops)
+	}
+	if g.Chance(12) {
+		// directed history: an entry with a validator goes stale and is revalidated by a 304 (which
+		// may carry Content-Length: 0); the revalidating client and every later hit get the stored body
+		p := paths[0]
+		version++
+		o := scOp{kind: 'O', path: p, status: 200, rerr: -1, chunk: g.Chance(40), cond: true, cl0: g.Chance(60),
+			hdr: [][2]string{{"Cache-Control", "max-age=5"}, {"Content-Type", "text/plain"}, {"ETag", "\"e" + hx.I(version) + "\""}}}
+		o.body = []byte("body-" + p + "-v" + hx.I(version) + "-" + g.Str("abcdef", 24))
+		r := scOp{kind: 'R', method: "GET", path: p}
+		ops := []scOp{o, r, {kind: 'T', dt: 6 + g.Intn(60)}, r, r, {kind: 'T', dt: 1 + g.Intn(3)}, r}
+		if g.Bool() {
+			ops = append(ops, scOp{kind: 'T', dt: 10}, r, r)
+		}
 		return syscRun("sysc", id, force, ops)
 	}
 	ops := []scOp{newOrigin(paths[0]), newOrigin(paths[1])}
@@ -159,11 +180,12 @@ func kfC05a(g *hx.Gen, id int) hx.Case {
 func kfC09eSysc(g *hx.Gen, id int) hx.Case {
 	syscMu.Lock()
 	defer syscMu.Unlock()
-	st := []int{500, 503, 410}[id%3]
+	st := []int{500, 503, 410, 410}[id%4]
 	p := "kf9e" + hx.I(id)
+	// case 3: the bodiless answer declares no length (chunked): the OLD body goes out under the new status
 	ops := []scOp{{kind: 'O', path: p, status: 200, hdr: [][2]string{{"Cache-Control", "max-age=5"}, {"ETag", "\"e1\""}}, body: []byte("body-" + p + "-v1"), rerr: -1},
 		{kind: 'R', method: "GET", path: p}, {kind: 'T', dt: 5},
-		{kind: 'O', path: p, status: st, hdr: [][2]string{{"Cache-Control", "max-age=5"}}, body: nil, rerr: -1},
+		{kind: 'O', path: p, status: st, hdr: [][2]string{{"Cache-Control", "max-age=5"}}, body: nil, rerr: -1, chunk: id%4 == 3},
 		{kind: 'R', method: "GET", path: p}, {kind: 'R', method: "GET", path: p}}
 	return syscRun("kf.C09-e.sysc", id, 0, ops)
 }
@@ -179,7 +201,7 @@ func syscRun(stream string, id int, force int, ops []scOp) hx.Case {
 			for _, kv := range o.hdr {
 				in = append(in, hx.X(kv[0]), hx.X(kv[1]))
 			}
-			in = append(in, hx.X(string(o.body)), hx.B(o.chunk), hx.I(o.rerr))
+			in = append(in, hx.X(string(o.body)), hx.B(o.chunk), hx.I(o.rerr), hx.B(o.cond), hx.B(o.cl0))
 		case 'R':
 			in = append(in, "R", hx.X(o.method), hx.X(o.path), hx.I(len(o.hdr)))
 			for _, kv := range o.hdr {
@@ -202,8 +224,29 @@ func syscRun(stream string, id int, force int, ops []scOp) hx.Case {
 		defer verifhook.SetClock(nil)
 		w.Configure(rules, &config.Config{RetryTimes: []int{}})
 		cur := map[string]*sysx.OriginResp{}
+		curOp := map[string]scOp{}
 		w.Perf.Reset(func(req *http.Request) *sysx.OriginResp {
 			p := strings.TrimPrefix(req.URL.Path, "/")
+			if o, ok := curOp[p]; ok && o.cond {
+				etag := ""
+				for _, kv := range o.hdr {
+					if kv[0] == "ETag" {
+						etag = kv[1]
+					}
+				}
+				if inm := req.Header.Get("If-None-Match"); etag != "" && inm == etag {
+					h := [][2]string{}
+					for _, kv := range o.hdr {
+						if kv[0] == "ETag" || kv[0] == "Cache-Control" {
+							h = append(h, kv)
+						}
+					}
+					if o.cl0 {
+						h = append(h, [2]string{"Content-Length", "0"})
+					}
+					return &sysx.OriginResp{Status: 304, Header: h, ReadErrAt: -1}
+				}
+			}
 			return cur[p]
 		})
 		out := []string{}
@@ -213,6 +256,7 @@ func syscRun(stream string, id int, force int, ops []scOp) hx.Case {
 				w.Advance(int64(o.dt))
 			case 'O':
 				cur[o.path] = &sysx.OriginResp{Status: o.status, Header: o.hdr, Body: o.body, Chunked: o.chunk, ReadErrAt: o.rerr}
+				curOp[o.path] = o
 			case 'R':
 				req := SysReq{Method: o.method, Target: "/c/" + o.path, Host: "h1.test", Header: o.hdr}
 				v := w.Do(req.Raw(), o.method == "HEAD")
